@@ -138,3 +138,17 @@ Proof.
   intros Hn H. unfold chunks_exact. rewrite (chunks_concat_rows Hn H).
   induction H as [|r rows Hr _ IH]; [reflexivity|]. cbn [filter]. rewrite (proj2 (Nat.eqb_eq _ _) Hr), IH. reflexivity.
 Qed.
+
+(* a group size at or beyond the length of the list: the whole list is the single (partial) group,
+   whatever the size is; hence every two such sizes give the same grouping *)
+Lemma chunks_whole A n (l : list A) :
+  0 < n -> length l <= n -> chunks n l = match l with [] => [] | _ => [l] end.
+Proof.
+  intros Hn Hl. unfold chunks. destruct l as [|x l]; [reflexivity|].
+  cbn [length chunks_fuel]. rewrite firstn_all2 by exact Hl.
+  rewrite skipn_all2 by exact Hl. destruct (length l); reflexivity.
+Qed.
+
+Lemma chunks_beyond A n m (l : list A) :
+  0 < n -> 0 < m -> length l <= n -> length l <= m -> chunks n l = chunks m l.
+Proof. intros Hn Hm Ln Lm. rewrite (chunks_whole l Hn Ln), (chunks_whole l Hm Lm). reflexivity. Qed.
